@@ -503,6 +503,9 @@ func (c *Ctx) convert(from, to types.Type, x string) string {
 // implementation-defined in Go and left unconstrained within the type.
 func (c *Ctx) truncToInt(x string, w int, signed bool) string {
 	tr := sx("ite", sx(">=", x, "0.0"), sx("to_int", x), sx("-", sx("to_int", sx("-", x))))
+	if iw, ok := c.intWitness(x, 0); ok {
+		tr = iw // x is integer-valued: x == (to_real iw)
+	}
 	lo, hi := intRange(w, signed)
 	any := c.freshSort("conv", "Int")
 	c.assume(and(sx("<=", intLit(lo), any), sx("<=", any, intLit(hi))))
@@ -542,4 +545,45 @@ func (c *Ctx) fromIdx(t types.Type, x string) string {
 		return bvLit(v, w)
 	}
 	return fmt.Sprintf("((_ int2bv %d) %s)", w, x)
+}
+
+// intWitness: for a Real term that is syntactically integer-valued (a rounding
+// result, an integral literal, a conversion from an integer, or an ite / a
+// definition over such terms) returns an Int term w with term == (to_real w).
+// The solvers do not find this by themselves (to_int over ite-clamped values).
+func (c *Ctx) intWitness(t string, depth int) (string, bool) {
+	if depth > 12 {
+		return "", false
+	}
+	if d, ok := c.defTerm[t]; ok {
+		return c.intWitness(d, depth+1)
+	}
+	if !strings.HasPrefix(t, "(") {
+		if strings.HasSuffix(t, ".0") {
+			d := strings.TrimSuffix(t, ".0")
+			for _, ch := range d {
+				if ch < '0' || ch > '9' {
+					return "", false
+				}
+			}
+			return d, d != ""
+		}
+		return "", false
+	}
+	parts := splitSexp(t[1 : len(t)-1])
+	switch {
+	case len(parts) == 2 && parts[0] == "to_real":
+		return parts[1], true
+	case len(parts) == 2 && parts[0] == "-":
+		if w, ok := c.intWitness(parts[1], depth+1); ok {
+			return sx("-", w), true
+		}
+	case len(parts) == 4 && parts[0] == "ite":
+		a, ok1 := c.intWitness(parts[2], depth+1)
+		b, ok2 := c.intWitness(parts[3], depth+1)
+		if ok1 && ok2 {
+			return sx("ite", parts[1], a, b), true
+		}
+	}
+	return "", false
 }
